@@ -138,7 +138,11 @@ def judge_mask_ops(obs, mask, box, image, fill, copy, dmask, tag):
 
     # -- cutout
     try:
-        res = mask.cutout(image, fill_value=fill, copy=copy)
+        if isinstance(fill, float) and fill == 0.0 and copy:
+            res = mask.cutout(image, copy=copy)            # the documented default fill
+            obs.count('default-fill-calls')
+        else:
+            res = mask.cutout(image, fill_value=fill, copy=copy)
     except Exception as exc:
         obs.violation('cutout-raised', f'cutout raised {type(exc).__name__}: {exc} ({tag}, fill={fill})')
         res = 'raised'
@@ -158,6 +162,8 @@ def judge_mask_ops(obs, mask, box, image, fill, copy, dmask, tag):
                         g = rv[j, i]
                         if not (g == e or (g != g and e != e)):
                             ok = False
+                        elif inside and imv.dtype.kind in 'iu' and np.isfinite(fill) and int(g) != int(e):
+                            ok = False          # integers compared as integers (a float detour loses bits above 2**53)
             obs.check(ok, 'cutout-wrong', f'cutout: box {box} image {shape} fill {fill} ({tag}): values differ from placement model', 'cutout')
             if res is not None and unit is not None:
                 obs.check(unit_of(res) == unit, 'cutout-unit-lost', f'cutout lost the unit {unit}', 'unit')
@@ -198,6 +204,8 @@ def judge_mask_ops(obs, mask, box, image, fill, copy, dmask, tag):
                                 e = (imv[y, x] if inside else fill) * wgt
                                 if not (g == e or (g != g and e != e)):
                                     ok, why = False, f'weight>0 pixel ({j},{i}): got {g!r}, expected {e!r}'
+                                elif inside and isinstance(e, (int, np.integer)) and np.isfinite(fill) and np.isfinite(g) and int(g) != int(e):
+                                    ok, why = False, f'weight>0 pixel ({j},{i}): got {g!r}, expected the integer {int(e)}'
                             elif wgt == 0:
                                 if not (g == 0 or g == fill or (g != g and fill != fill)):
                                     ok, why = False, f'zero-weight pixel ({j},{i}): got {g!r}, expected 0 or fill {fill!r}'
@@ -261,6 +269,9 @@ def make_image(nrng, shape, kind):
         return nrng.integers(-100, 100, shape).astype(np.int16)
     if kind == 'int64':
         return nrng.integers(-10 ** 6, 10 ** 6, shape).astype(np.int64)
+    if kind == 'int64-big':
+        # 64-bit identifiers / flags / timestamps: not representable in float64
+        return (nrng.integers(2 ** 53, 2 ** 56, shape) * 2 + 1).astype(np.int64) * nrng.choice([-1, 1], shape)
     if kind == 'uint16':
         return nrng.integers(0, 500, shape).astype(np.uint16)
     if kind == 'bool':
@@ -326,11 +337,11 @@ def run_case(case, obs):
     shape = (int(nrng.integers(0, 48)), int(nrng.integers(0, 64)))
     if nrng.random() < 0.1:
         shape = (int(nrng.integers(0, 3)), int(nrng.integers(0, 3)))
-    kind = ['int16', 'int64', 'float32', 'float64', 'float64-nonfinite', 'quantity', 'uint16', 'bool', 'view', 'view'][nrng.integers(10)]
+    kind = ['int16', 'int64', 'float32', 'float64', 'float64-nonfinite', 'quantity', 'uint16', 'bool', 'view', 'view', 'int64-big'][nrng.integers(11)]
     image = make_image(nrng, shape, kind)
     fills = [0.0, 7.0, -1.5, np.nan, np.inf, -np.inf]
     if kind.startswith('int'):
-        fills = [0, 7, -3, np.nan, np.inf, -np.inf]
+        fills = [0, 7, -3, np.nan, np.inf, -np.inf, 0.0, 7.0]
     if kind in ('uint16', 'bool'):
         fills = [0, 1, np.nan, np.inf, -np.inf] if kind == 'uint16' else [0, 1, np.nan, np.inf]
     fill = fills[nrng.integers(len(fills))]
